@@ -5,7 +5,7 @@ const techPath = "path-sensitive typestate analysis on go/ssa (must-pass-through
 
 func init() {
 	registerProperty(&Property{ID: "C01", DesignRef: "DESIGN.md §4 C01, §3.3, §3.7",
-		Rules:      []string{"TS-VERIFY", "TS-HASHBYTES", "TS-SERVE", "TS-REFUSE#push", "TS-REFUSE#upload", "SH-DIGESTER", "FS-BLOB", "PV-PATH#digest", "LK-GUARD-UPLOAD"},
+		Rules:      []string{"TS-VERIFY", "TS-HASHBYTES", "TS-SERVE", "TS-REFUSE#push", "TS-REFUSE#upload", "SH-DIGESTER", "FS-BLOB", "PV-PATH#digest", "LK-GUARD-UPLOAD", "LK-CTA-UPLOAD"},
 		Technique:  techPath + "; who-may-write and path-provenance checks",
 		Decided:    "the structural chain behind ‘served content hashes to its digest’: every session commit outside the stores is dominated by Verify's ok-edge against a parsed digest or the session was created with the digest (store re-checks); hashed bytes = written bytes = indexed digest and size; the computed digest is compared with the requested one; digester and writer are always re-created together, the commit compares with the expected digest before the rename / map insert and names the blob after the digester; nothing else creates files under blobs/; digest parts reach a file name only after Validate; read handlers take header, body and media type from one descriptor.",
 		NotDecided: "correctness of the hash implementations; that Verify's re-scan after an algorithm switch reads exactly the bytes written; pre-existing corrupt files in a directory.",
@@ -23,7 +23,7 @@ func init() {
 		NotDecided: "the map semantics of AddDesc/RmDesc (value-level, see C18); strictness of the `last` comparison; exactly-once paging.",
 	})
 	registerProperty(&Property{ID: "C04", DesignRef: "DESIGN.md §4 C04, §3.3, §3.6",
-		Rules:      []string{"TS-EXISTS", "TS-MT-CONSISTENT", "TS-REFTAG", "TS-HASHBYTES#expected-digest", "TS-REFUSE#push", "TB-MEDIATYPE", "TS-DETECT", "PV-PATH#digest", "TB-GRAMMAR#tag"},
+		Rules:      []string{"TS-EXISTS", "TS-MT-CONSISTENT", "TS-REFTAG", "TS-HASHBYTES#expected-digest", "TS-REFUSE#push", "TB-MEDIATYPE", "TS-DETECT", "PV-PATH#digest", "TB-GRAMMAR#tag", "TS-TOMBSTONE"},
 		Technique:  techPath + "; table agreement on constants",
 		Decided:    "every path to the index insert passes the parse ok-edge and the ok-edge of an existence verifier that covers every Descriptor field of the parsed struct in the same repository; the declared media type is compared with the body's; reference is a grammar-checked tag or the compared digest; media-type tables agree; nothing mutating is reachable after any refusal; mutators sit behind the read-only guard.",
 		NotDecided: "well-formedness beyond what the JSON decoder and the reference checks establish; equality of the observable state before/after a refusal as a value.",
@@ -35,7 +35,7 @@ func init() {
 		NotDecided: "the referrers part of the retention policy matrix; which blobs a given graph retains.",
 	})
 	registerProperty(&Property{ID: "C06", DesignRef: "DESIGN.md §4 C06, §3.7",
-		Rules:      []string{"SH-PASS-LOOP", "TS-SAVE#collector", "SH-WORKLIST#term", "SH-WORKLIST#skip-set", "SH-MARK-EXHAUSTIVE", "SH-SWEEP-GUARD", "SH-ROOTS", "SH-MODSTAMP", "FS-CLEANUP#fresh", "PV-PATH#collector"},
+		Rules:      []string{"SH-PASS-LOOP", "TS-SAVE#collector", "SH-WORKLIST#term", "SH-WORKLIST#skip-set", "SH-MARK-EXHAUSTIVE", "SH-SWEEP-GUARD", "SH-ROOTS", "SH-MODSTAMP", "FS-CLEANUP#fresh", "PV-PATH#collector", "TS-LOADSTAMP"},
 		Technique:  "loop-shape and path rules on go/ssa and the typed AST",
 		Decided:    "a failing repository does not end the store-wide pass (no path from the failure edge leaves the loop); a collector-modified index is saved on all paths; the mark and scan loops terminate on any input (progress + bounded growth); index entries without a blob are pruned; untagged entries that are old or outside any grace period are not roots when untagged collection is on (path conditions of the root selection); ‘exactly the garbage’ also means nothing retained is removed: the mark phase's skip-set discipline, field exhaustiveness and the sweep guards (shared with C05).",
 		NotDecided: "exactness of the sweep as a value; idempotence of a second pass; empty-repository removal semantics (its safety is under C10).",
@@ -47,7 +47,7 @@ func init() {
 		NotDecided: "exactness of the list contents after arbitrary histories; filter semantics; union of pages.",
 	})
 	registerProperty(&Property{ID: "C08", DesignRef: "DESIGN.md §4 C08, §3.3, §3.2",
-		Rules:      []string{"TS-RANGE", "LK-CTA", "TS-CANCEL", "TS-REFUSE#upload", "PV-PATH#session", "FS-TEMP", "TS-CLEANUP", "TS-TIMER", "LK-GUARD-UPLOAD", "SH-RANGE-HDR", "TS-LOWWATER"},
+		Rules:      []string{"TS-RANGE", "LK-CTA", "TS-CANCEL", "TS-REFUSE#upload", "PV-PATH#session", "FS-TEMP", "TS-CLEANUP", "TS-TIMER", "LK-GUARD-UPLOAD", "SH-RANGE-HDR", "TS-LOWWATER", "TS-PRUNE-TOTAL", "LK-CTA-UPLOAD"},
 		Technique:  techPath + "; lock analysis for check-then-act",
 		Decided:    "every write into an existing session is dominated by the Content-Range check and the state-offset equality against Size(); check and write under one lock (fails today: known finding); a failed Verify cancels; every exit of both commit methods unregisters the session; a refused chunk reaches no write; session ids never reach a path; the session cleanup removes the temp file; cache entries are only dropped after their cleanup; the expiry timer of the session cache is re-armable after it was stopped (a stopped timer is never left in the nil-tested field).",
 		NotDecided: "the count bound (asynchronous pruning, value-level); that status reports exactly the received bytes; expiry timing.",
@@ -59,13 +59,13 @@ func init() {
 		NotDecided: "multi-step requests being all-or-nothing; GC deleting blobs before saving the index; stray temp files; power-failure durability (outside the property).",
 	})
 	registerProperty(&Property{ID: "C10", DesignRef: "DESIGN.md §4 C10, §3.5",
-		Rules:      []string{"TS-SAVE", "FS-INIT", "FS-CLEANUP", "LK-COPY", "SH-WORKLIST#complete", "SH-CONVERT-MARK#loader", "TS-HASHBYTES", "SH-SWEEP-GUARD#exact"},
+		Rules:      []string{"TS-SAVE", "FS-INIT", "FS-CLEANUP", "LK-COPY", "SH-WORKLIST#complete", "SH-CONVERT-MARK#loader", "TS-HASHBYTES", "SH-SWEEP-GUARD#exact", "TS-LOADSTAMP", "TS-TOMBSTONE"},
 		Technique:  "filesystem-effect and path analysis on go/ssa",
 		Decided:    "every index mutation ends in a save whose result is returned; layout initialised (or known to exist) before the first write on every path; the empty-repository cleanup removes content before markers, stops at the first failure, knows every registered algorithm directory, reports success once the markers are gone and clears the exists flag on exactly that result; the initialiser repairs a layout file that fails the openers' content check; every index load runs the ingest whose child scan processes everything it queues.",
 		NotDecided: "equality of answers across restart / across stores (value-level); child-descriptor rebuild.",
 	})
 	registerProperty(&Property{ID: "C11", DesignRef: "DESIGN.md §4 C11, §3.2",
-		Rules:      []string{"LK-ATOMIC", "LK-RMW", "LK-REGISTRY", "LK-COPY", "TB-DEEP", "LK-GUARD-STORE", "TS-PAGE#snapshot", "TS-EXPIRE-ATOMIC"},
+		Rules:      []string{"LK-ATOMIC", "LK-RMW", "LK-REGISTRY", "LK-COPY", "TB-DEEP", "LK-GUARD-STORE", "TS-PAGE#snapshot", "TS-EXPIRE-ATOMIC", "TS-GC-FRESH"},
 		Technique:  techLock,
 		Decided:    "index load-modify-save is one uninterrupted critical section in both stores; the handler-level read-modify-write of a referrers response is covered by one mutex; handlers only see deep copies taken under the mutex; every shared field has a common lock.",
 		NotDecided: "linearizability of histories; multi-call handlers (push = insert + referrers update) being atomic as a whole.",
@@ -92,7 +92,7 @@ func init() {
 		NotDecided: "‘while still serving its content’ for legacy layouts whose conversion needs a write (value-level).",
 	})
 	registerProperty(&Property{ID: "C15", DesignRef: "DESIGN.md §4 C15, §3.6, §3.4",
-		Rules:      []string{"TB-ERRCODE", "TB-ERRPAIR", "TB-ERRWRAP", "SH-SIBLING-STORE#sentinels", "PV-BOUNDS", "PV-ROUTE", "PV-REPO", "TB-NILCONF", "TB-GRAMMAR", "TS-POOL"},
+		Rules:      []string{"TB-ERRCODE", "TB-ERRPAIR", "TB-ERRWRAP", "SH-SIBLING-STORE#sentinels", "PV-BOUNDS", "PV-ROUTE", "PV-REPO", "TB-NILCONF", "TB-GRAMMAR", "TS-POOL", "LK-HOLD"},
 		Technique:  "table agreement on typed constants; condition→code classification on go/ssa; difference-bound range proof",
 		Decided:    "the error constructors equal the OCI code table; every error document follows a constant 4xx and the same condition maps to the same (registered) code at all sibling sites; request-derived integers are proven in range; only grammar-checked repository names are routed; dereferenced settings cannot be nil.",
 		NotDecided: "panic freedom in general (index arithmetic not derived from request integers); 5xx-vs-4xx classification of store errors.",
@@ -110,7 +110,7 @@ func init() {
 		NotDecided: "losslessness; grouping by actual subject; equality of the results of repeated conversions (value-level).",
 	})
 	registerProperty(&Property{ID: "C19", DesignRef: "DESIGN.md §4 C19, §3.6",
-		Rules:      []string{"TB-FLAGS", "TB-DEFAULTS", "TB-NILCONF", "TB-ROUTE", "LK-SHUTDOWN", "LK-GUARD-SERVER", "TS-SHUTDOWN", "TS-CONF-LIST", "FS-RO"},
+		Rules:      []string{"TB-FLAGS", "TB-DEFAULTS", "TB-NILCONF", "TB-ROUTE", "LK-SHUTDOWN", "LK-GUARD-SERVER", "TS-SHUTDOWN", "TS-CONF-LIST", "FS-RO", "TS-REFERRER-CALL#setting"},
 		Technique:  "table agreement on the typed AST (flags, option fields, configuration paths, defaults); guard dominance in the router; lock analysis of the shutdown path",
 		Decided:    "flag → option → configuration path wiring equals the documented table, flag defaults equal SetDefaults defaults, defaulting never overwrites a set value; every mutating route is gated by its switch; the rate-limit entry is updated under one mutex; the shutdown path is free of lock cycles and closes the store on every path on which the HTTP shutdown succeeded.",
 		NotDecided: "per-second accounting; signal handling outcome; every-combination behaviour as values.",
